@@ -23,6 +23,7 @@ TEMPLATES = {
     'T2': ['CH', 'FR', 'O'],
     'T3': ['O', 'ZN', 'PA', 'CH', 'FR'],
     'T4': ['CH', 'ZN', 'O5', 'FR'],
+    'T5': ['O', 'RZ', 'CH', 'FR', 'ZN'],      # RZ = an add_zone call that is rejected (wrong-type value)
 }
 MODES = ['distinct', 'default', 'partial']
 
@@ -36,6 +37,9 @@ def shards(tier):
         [c for c in itertools.product(('T1', 'T2'), repeat=3)] + [('T1', 'T4', 'T2'), ('T4', 'T4', 'T1')]
     for mode in MODES:
         for combo in three:
+            out.append({'kind': 'lf', 'mode': mode, 'templates': list(combo)})
+    for mode in MODES:
+        for combo in (('T5', 'T3'), ('T3', 'T5'), ('T5', 'T5')):
             out.append({'kind': 'lf', 'mode': mode, 'templates': list(combo)})
     out.append({'kind': 'frames'})
     return out
@@ -101,6 +105,8 @@ def lf_spec(c):
                                 data=S.arr_spec('uint16', [n], [100 * (i + 1) + r for r in range(n)]), **sn(i, 'channel')))
         elif e == 'FR':
             ops.append(S.op_add('frame', f'F{i}', 'FRAME', lf=L, channels=[{'$ref': f'C{i}'}], **sn(i, 'frame')))
+        elif e == 'RZ':
+            ops.append(S.op_add('zone', f'RZ{i}', 'REJECTED-ZONE', lf=L, expect='raise', description=17, **sn(i, 'zone')))
         elif e == 'ZN':
             ops.append(S.op_add('zone', f'Z{i}', 'ZONE', lf=L, description=f'zone of logical file {i}', **sn(i, 'zone')))
         elif e == 'PA':
@@ -147,7 +153,8 @@ def run_case(c):
     if m.shared_sets:
         if not raised:
             kinds = '+'.join(sorted({k for k, _ in m.shared_sets}))
-            viol.append((f"C18:shared-set-written:{c['mode']}", f"sets {m.shared_sets} are shared between logical files but the "
+            tag = ':after-rejected-call' if any('RZ' in TEMPLATES[t] for t in c['templates']) else ''
+            viol.append((f"C18:shared-set-written:{c['mode']}{tag}", f"sets {m.shared_sets} are shared between logical files but the "
                                                                 f"file was written | {_brief(c)}"))
         return Outcome('shared:' + ('rejected' if raised else 'written'), viol, True, digest=str(raised))
     if raised:
